@@ -4,4 +4,4 @@ TIE = "corr:pe"
 TIE_THEOREM = "Relic.Props.C08 (models Relic.Model.PE vs lib/authenticode)"
 UNPROVED = []
 IMPL_PARALLEL = 16
-install(globals(), "C08", ["pe", "e2e", "cab", "ps", "jar", "apk", "ziprw", "xsig"])
+install(globals(), "C08", ["pe", "e2e", "cab", "ps", "jar", "apk", "ziprw", "xsig", "deb"])
